@@ -1,7 +1,11 @@
 // Package rules holds the repository-specific rules, grouped per property (DESIGN.md section 4).
 package rules
 
-import "verif/checker/internal/core"
+import (
+	"golang.org/x/tools/go/ssa"
+
+	"verif/checker/internal/core"
+)
 
 // Rule is one rule template instantiated for this repository.
 type Rule struct {
@@ -35,6 +39,33 @@ func shared(id string, runs ...func(*core.Ctx)) func(*core.Ctx) {
 		defer func() { c.RuleAlias = old }()
 		for _, r := range runs {
 			r(c)
+		}
+	}
+}
+
+// bindLivePhis: a Phi whose operands, except one, can only travel with an error that keeps `use` from being reached
+// (placeholders such as `return 0, 0, 0, err` of a helper expanded in place) is rendered as that one operand.
+func bindLivePhis(sx *core.Symx, fn *ssa.Function, use ssa.Instruction) {
+	isUse := func(x ssa.Instruction) bool { return x == use }
+	for _, b := range fn.Blocks {
+		for _, ins := range b.Instrs {
+			phi, ok := ins.(*ssa.Phi)
+			if !ok {
+				break
+			}
+			var live []ssa.Value
+			seen := map[ssa.Value]bool{}
+			for k, e := range phi.Edges {
+				if core.PhiEdgeReaches(phi, k, isUse) && !seen[e] {
+					seen[e] = true
+					live = append(live, e)
+				}
+			}
+			if len(live) == 1 && len(phi.Edges) > 1 {
+				if _, isPhi := live[0].(*ssa.Phi); !isPhi {
+					sx.Bind(phi, sx.Of(live[0]).String())
+				}
+			}
 		}
 	}
 }
